@@ -5,6 +5,8 @@ import common
 import gen
 import progcases
 
+TWINS = ['label']      # harness/twins.py: which part of a twin text carries the difference
+
 N = {"quick": 300, "thorough": 8000}
 
 EXTREMES = ["²", "①", "12³", "٣", "0042", "007", "1_000", "+1", " 1", "１２", "",  "\x00", "'", '"', "\\", "a" * 5000, "é", "josé", "😀", " ", " ", "\t\n", "0", "1", "1.0", "True", "None",
